@@ -11,10 +11,12 @@ use serde_json::json;
 
 pub const PROP: &str = "C08";
 
-const LEAVES: [&str; 17] = [
+const LEAVES: [&str; 18] = [
     "int", "void", "String", "CharSequence", "List", "Map", "IBinder", "FileDescriptor",
     "ParcelFileDescriptor", "ParcelableHolder", "Itf", "Par", "En", "Fw", "Unk", "Nope",
     "android.os.ParcelFileDescriptor",
+    // a user type that is called like the synthetic name of array types
+    "Array",
 ];
 
 fn chains(depth: usize) -> Vec<Ty> {
@@ -63,6 +65,7 @@ fn make_case(types: &[Ty], position: usize, header_variant: usize, label: String
     }
     let mut files = support();
     let mut header = observed_header(item);
+    header.imports.push(Import::new("q.Array"));
     if builtin_imports {
         // the built-ins stay built-ins when the file imports them
         for i in ["android.os.ParcelableHolder", "android.os.IBinder", "android.os.ParcelFileDescriptor"] {
@@ -128,6 +131,18 @@ pub fn run(tier: Tier, seed: u64) -> i32 {
     let depth = tier.pick(4, 5);
     let mut types = chains(depth);
     types.extend(leaf_pair_maps());
+    // size dimension: single chains of depth 6..=24 (alternating constructors) over a few leaves
+    for l in ["int", "String", "Itf", "List", "Nope"] {
+        for d in [6usize, 7, 8, 9, 10, 12, 15, 16, 17, 20, 24] {
+            for phase in 0..4 {
+                let mut t = leaf(l);
+                for k in 0..d {
+                    t = wrap((k + phase) % 4, t);
+                }
+                types.push(t);
+            }
+        }
+    }
     let per = 40;
     let nf = (types.len() + per - 1) / per;
     super::drive(
@@ -172,7 +187,7 @@ pub fn run(tier: Tier, seed: u64) -> i32 {
     let all = classes.iter().all(|c| stats.outcome_count(&format!("class:{c}")) > 0);
     finish(
         &stats,
-        "every container built by chains over {T[], List<T>, Map<String,T>, Map<T,String>} up to the stated depth over 17 leaf categories (reached through real resolution), plus all Map<k,v> over leaf pairs, each in return / argument / field / constant position, with three headers (plain; importing the built-ins it uses; importing project items / declaring a parcelable named like built-ins); inside the extent of every type the diagnostics are compared with the statement's element tables applied to every container node; distinct_nontrivial counts distinct (type, position) pairs",
+        "every container built by chains over {T[], List<T>, Map<String,T>, Map<T,String>} up to the stated depth over 18 leaf categories (reached through real resolution; one is a user type called `Array`), plus all Map<k,v> over leaf pairs and single chains of depth 6-24, each in return / argument / field / constant position, with three headers (plain; importing the built-ins it uses; importing project items / declaring a parcelable named like built-ins); inside the extent of every type the diagnostics are compared with the statement's element tables applied to every container node; distinct_nontrivial counts distinct (type, position) pairs",
         &[
             "element tables transcribed from the statement; an unresolved name as map key is left open (statement contradictory)",
             "the comparison covers every validation diagnostic located inside a type's extent (unknown-type Errors and missing-direction Errors included, from the same reference)",
